@@ -184,9 +184,36 @@ def oracle(case, stats):
     except Exception as e:
         raise Violation("exception-in-replace", "%s: %r" % (type(e).__name__, e))
     ncross = check_result(case, groups, new, stats, "base run", k)
+    # the caller edits the replacement pattern object in place (one new atom moved a quarter of the way towards the first
+    # search atom) and calls again with the same objects: the result must follow the pattern as it is now
+    sh_, s_only_, r_only_ = repl.shared_maps(case)
+    if r_only_ and not case["replace_all"]:
+        j = r_only_[0]
+        P0 = np.array(case["ppos"][0], float)
+        newp = np.array(case["rpos"][j], float) + 0.25 * (P0 - np.array(case["rpos"][j], float))
+        if min(np.linalg.norm(newp - np.array(q)) for q in list(case["ppos"]) + [r_ for i_, r_ in enumerate(case["rpos"]) if i_ != j]) > 0.05:
+            rp.positions[j] = newp
+            case3 = dict(case)
+            case3["rpos"] = [list(r_) for r_ in case["rpos"]]
+            case3["rpos"][j] = newp.tolist()
+            try:
+                new3, k3 = mf.replace(s, sp, rp, case["atol"], case["hints"], case["seeds"], **kw)
+            except Exception as e:
+                raise Violation("exception-in-replace", "second call after editing the replacement pattern in place: %s: %r" % (type(e).__name__, e))
+            check_result(case3, groups, new3, stats, "second call after moving replacement atom %d in place" % j, k3)
+            rp.positions[j] = np.array(case["rpos"][j], float)
+            stats.count("pattern-edited-in-place")
     # joint rigid motion of both patterns
     m = case["motion"]
-    sp2, rp2 = repl.build_search(case, m), repl.build_replace(case, m)
+    if case["seeds"][0] % 2:
+        # the caller moves the SAME pattern objects in place and calls again (nothing may be remembered from the first call)
+        sp2, rp2 = sp, rp
+        sp2.positions[:] = np.array(case["ppos"], float) @ np.array(m["R"]).T + np.array(m["t"])
+        if len(case["rpos"]):
+            rp2.positions[:] = np.array(case["rpos"], float) @ np.array(m["R"]).T + np.array(m["t"])
+        stats.count("joint-motion:in-place-on-same-objects")
+    else:
+        sp2, rp2 = repl.build_search(case, m), repl.build_replace(case, m)
     try:
         new2, k2 = mf.replace(s, sp2, rp2, case["atol"], case["hints"], case["seeds"], **kw)
     except Exception as e:
